@@ -254,4 +254,53 @@ Fixpoint l_init_from (i : nat) (ids : list N) : list lthread :=
 Definition l_init (ids : list N) : list lthread := l_init_from 0 ids.
 Definition lifecycle_run (ids : list N) (sched : list nat) : registry * list lthread :=
   run _ _ lstep (reg_empty, l_init ids) sched.
+
+(* -------------------------------------------------------------------------------------------------
+   Source re-attach on a live bridge (bridge_connection.go SetSourceConnection, called by handleExistingBridge when the
+   source client reconnects; bridge_forward.go dynamicSourceWriter.Write).
+   The target->source copy loop writes through dynamicSourceWriter, which fetches b.sourceForwarder on EVERY write;
+   SetSourceConnection(new) replaces b.sourceForwarder by a forwarder over the new connection.
+   Shared state: the bytes accepted by each source end so far, oldest end first; the LAST element is the end installed
+   most recently (the one dynamicSourceWriter will fetch).  Threads: the target->source loop (read script of the target
+   end, write oracle of the source side, no limiter) and an attacher that performs n re-attaches, interleaved by the
+   schedule.  One step = one Read, one Write, or one SetSourceConnection. *)
+Inductive qpc := QRead | QWrite (data : list byte) (e : rkind) | QDone (x : xreason).
+Inductive qthread := QCopy (pc : qpc) (rs : list rd) (ws : list wr) | QAttach (n : nat).
+Definition qshared := list (list byte).
+
+Definition deliver_cur (ends : qshared) (bs : list byte) : qshared := removelast ends ++ [last ends [] ++ bs].
+
+Definition qstep (t : qthread) (ends : qshared) : qthread * qshared :=
+  match t with
+  | QAttach O => (t, ends)
+  | QAttach (S n) => (QAttach n, ends ++ [[]])       (* b.sourceForwarder = CreateDataForwarder(new conn) *)
+  | QCopy pc rs ws =>
+    match pc with
+    | QRead =>
+      match rs with
+      | [] => (QCopy (QDone XReadEnd) [] ws, ends)
+      | r :: rs' =>
+        match r_data r with
+        | [] => (match r_end r with RFatal => QCopy (QDone XReadEnd) rs' ws | _ => QCopy QRead rs' ws end, ends)
+        | _ :: _ => (QCopy (QWrite (r_data r) (r_end r)) rs' ws, ends)
+        end
+      end
+    | QWrite data e =>
+      let '(nw, err, ws') := do_write ws data in
+      let ends' := deliver_cur ends (firstn (N.to_nat nw) data) in      (* goes to the forwarder fetched NOW *)
+      if err then (QCopy (QDone XWriteErr) rs ws', ends') else
+      if negb (N.eqb nw (lenN data)) then (QCopy (QDone XShortWrite) rs ws', ends') else
+      match e with
+      | RFatal => (QCopy (QDone XReadEnd) rs ws', ends')
+      | _ => (QCopy QRead rs ws', ends')
+      end
+    | QDone _ => (t, ends)
+    end
+  end.
+
+(* thread 0 = the target->source loop, thread 1 = the attacher; one source end attached at the start *)
+Definition reattach_init (rs : list rd) (ws : list wr) (n : nat) : qshared * list qthread :=
+  ([[]], [QCopy QRead rs ws; QAttach n]).
+Definition reattach_run (rs : list rd) (ws : list wr) (n : nat) (sched : list nat) : qshared * list qthread :=
+  run _ _ qstep (reattach_init rs ws n) sched.
 Close Scope N_scope.
